@@ -65,6 +65,17 @@ def configs(tier, seed):
     cfgs.append(dict(backend='redis', backoff='r10', n=1, prestored=2, prestored_due=10.0, keep_announcements=False, script=[E0], d=d, dd=2, menu=MENU))
     cfgs.append(dict(backend='cloud', cloud_mq=True, backoff='r10', n=1, prestored=1, script=[E0, F], d=d, dd=2, menu=MENU))
     cfgs.append(dict(backend='dict', backoff='r10', n=1, script=[E0, F], slow_ops=['get'], d=d, dd=2, menu=MENU))
+    # the start-up listing is lazy (I/O per record on the real backends): enqueue / retry bookkeeping / announcements
+    # may run between two records of load()
+    cfgs.append(dict(backend='dict', backoff='r10', n=1, prestored=2, prestored_due=10.0, script=[E0], slow_ops=['load-step'], d=3, dd=1, menu=MENU))
+    cfgs.append(dict(backend='dict', backoff='r10', n=1, prestored=2, prestored_due=0.0, harness_wait=True, script=[['announce', 0], F],
+                     slow_ops=['load-step'], d=3, dd=1, menu=MENU))
+    cfgs.append(dict(backend='redis', backoff='r10', n=1, prestored=2, prestored_due=10.0, keep_announcements=False, script=[E0],
+                     redis_yields=['hget'], d=3, dd=1, menu=MENU))
+    # enqueue() blocked on a saturated relay pool while the storage announces the new message
+    cfgs.append(dict(backend='dict', backoff='r10', n=1, harness_wait=True, relay_pool=1, script=[E0, E1, ['announce', 1], ['announce', 0]], d=d, dd=2, menu=MENU))
+    cfgs.append(dict(backend='redis', backoff='r10', n=1, relay_pool=1, script=[E0, E1], d=d, dd=2, menu=MENU))
+    cfgs.append(dict(backend='cloud', cloud_mq=True, backoff='r10', n=1, relay_pool=1, script=[E0, E1], d=d, dd=2, menu=MENU))
     nconf = 16 if tier == 'quick' else 32
     cfgs += [{'mode': 'conformance', 'k': k, 'of': nconf, 'take': 1 if tier == 'quick' else 6} for k in range(nconf)]
     return cfgs
